@@ -168,6 +168,18 @@ fn flip_case(genome: FlipGenome, bits: &[bool], rate: Option<f32>, script: &[u64
             .collect()
     };
     let from_tags = |out: Vec<TagBit>| -> Vec<(u32, bool)> { out.iter().map(|t| (t.pos, t.flipped)).collect() };
+    // in a third of the cases the thread has just mutated genomes of other lengths at other rates
+    // (nothing a mutator or its thread remembers from them may influence the judged mutation)
+    if script.len() % 3 == 0 {
+        probe.label("other genomes mutated on this thread first");
+        let mut warm_rng = ScriptRng::new(&[], 0xBEEF ^ n as u64);
+        let _ = guarded(|| {
+            let _ = WithOneOverLength.mutate(vec![false; n + 5], &mut warm_rng).is_ok();
+            let _ = WithRate::new(0.5).mutate(vec![true; 3], &mut warm_rng).is_ok();
+            let _ = WithOneOverLength.mutate(Bitstring { bits: vec![true; 2 * n + 1] }, &mut warm_rng).is_ok();
+            let _ = WithRate::new(0.03).mutate(Bitstring { bits: vec![false; 40] }, &mut warm_rng).is_ok();
+        });
+    }
     let r: Result<Result<(usize, Vec<(u32, bool)>), String>, String> = guarded(|| {
         Ok(match (genome, rate) {
             (FlipGenome::VecBool, Some(r)) => {
